@@ -122,7 +122,54 @@ func drawSpec(t *kernel.Tape, o Opts, sys resolve.System) (*uni.Spec, []uni.Ref,
 	loadCorpus(o.Repo)
 	if es := corpus[sys]; len(es) > 0 && t.Bool(1, 4) {
 		e := es[t.Choose(len(es))]
-		return e.Spec, e.Roots, "testdata:" + e.Name
+		if !t.Bool(1, 2) {
+			return e.Spec, e.Roots, "testdata:" + e.Name
+		}
+		// Mutate a deep copy of the testdata universe: drop a version, retarget
+		// or reorder requirements. Roots that disappear are dropped too.
+		sp := cloneSpec(e.Spec)
+		isRoot := map[uni.Ref]bool{}
+		for _, r := range e.Roots {
+			isRoot[r] = true
+		}
+		note := ""
+		for m, n := 0, t.Range(1, 3); m < n; m++ {
+			pi := t.Choose(len(sp.Pkgs))
+			if len(sp.Pkgs[pi].Vers) == 0 {
+				continue
+			}
+			vi := t.Choose(len(sp.Pkgs[pi].Vers))
+			v := &sp.Pkgs[pi].Vers[vi]
+			switch t.Choose(4) {
+			case 0:
+				if !isRoot[uni.Ref{P: pi, V: vi}] && vi == len(sp.Pkgs[pi].Vers)-1 {
+					sp.Pkgs[pi].Vers = sp.Pkgs[pi].Vers[:vi]
+					note += " drop-version"
+				}
+			case 1:
+				if len(v.Reqs) > 0 {
+					ri := t.Choose(len(v.Reqs))
+					tp := t.Choose(len(sp.Pkgs))
+					if len(sp.Pkgs[tp].Vers) > 0 && !strings.Contains(sp.Pkgs[tp].Name, ">") {
+						v.Reqs[ri].Name = sp.Pkgs[tp].Name
+						note += " retarget-requirement"
+					}
+				}
+			case 2:
+				if len(v.Reqs) > 1 {
+					a, b := t.Choose(len(v.Reqs)), t.Choose(len(v.Reqs))
+					v.Reqs[a], v.Reqs[b] = v.Reqs[b], v.Reqs[a]
+					note += " swap-requirements"
+				}
+			default:
+				if len(v.Reqs) > 0 {
+					r := v.Reqs[t.Choose(len(v.Reqs))]
+					v.Reqs = append(v.Reqs, r)
+					note += " duplicate-requirement"
+				}
+			}
+		}
+		return sp, e.Roots, "testdata:" + e.Name + " mutated:" + note
 	}
 	k := gen.Knobs{MaxPkgs: o.MaxPkgs, MaxVers: 5, MaxReqs: 4}
 	var s *uni.Spec
@@ -432,6 +479,9 @@ func RunC05(t *kernel.Tape, o Opts) *Result {
 		}
 		if op.gerr {
 			probe(res, "graph_error", 1)
+			if strings.Contains(op.desc, "multi-registry") {
+				probe(res, "maven_multi_registry_differs", 1)
+			}
 		}
 		probe(res, "node_errors", op.nerr)
 	}
@@ -673,6 +723,22 @@ func RunC05(t *kernel.Tape, o Opts) *Result {
 		res.Scenario = scn
 	}
 	return res
+}
+
+func cloneSpec(s *uni.Spec) *uni.Spec {
+	out := &uni.Spec{Sys: s.Sys}
+	for _, p := range s.Pkgs {
+		np := uni.Pkg{Name: p.Name}
+		for _, v := range p.Vers {
+			nv := uni.Ver{V: v.V, Attrs: append([]uni.KV(nil), v.Attrs...)}
+			for _, r := range v.Reqs {
+				nv.Reqs = append(nv.Reqs, uni.Req{Name: r.Name, Req: r.Req, Type: append([]uni.KV(nil), r.Type...)})
+			}
+			np.Vers = append(np.Vers, nv)
+		}
+		out.Pkgs = append(out.Pkgs, np)
+	}
+	return out
 }
 
 func indexOfSys(s resolve.System) int {
